@@ -11,6 +11,7 @@ LEVEL = "exploration"
 SHARDS = {"quick": 8, "thorough": 16}
 TIMEOUT = {"quick": 900, "thorough": 7200}
 REQUIRED = {"leaf_network": 100, "reimport": 96, "classified_leaves": 1}
+ANCHORS = ['base_wallet:BaseWallet.node_extended_keys', 'paper_wallet:PaperWallet.generate', 'paper_wallet:PaperWallet.wasabi_json', 'keys:PrivateKey.wif', 'wallet_utils:Version.__int__', 'base_wallet:BaseWallet.from_extended_key', 'helper:h160_to_p2sh_address']
 RULE = ("both networks x random seeds x accounts/intervals x every output-producing API (five address kinds on nodes at "
         "random paths, group rows, account keys, node_extended_keys, default extended keys, generate() minus the BIP85 block, "
         "wasabi_json) + wallets re-imported from each of the 12 version prefixes; every string leaf is classified by an "
